@@ -52,6 +52,23 @@ def run(ctx, tier):
             ctx.violation("result-depends-on-call-history:" + _name(fn).split(".")[-1], function=_name(fn), args=repr(a)[:300],
                           first_result=want[:300], replayed_result=got[:300], monitor="replay", case=None)
     ctx.hit("replay_shuffled")
+    # phase 1t: the message strings are TEMPORARIES (f(line.strip()), f(msg.upper())): each is a new object that dies right after
+    # the call, so the next one is usually allocated at the same address - a memo keyed by id(msg) without holding a reference
+    # then takes a new message for the old one (the recorded argument objects above all stay alive and never show this)
+    rng.shuffle(order)
+    nt = 0
+    for i in order:
+        fn, a, k, want = rec[i]
+        if not any(type(x) is str and len(x) > 1 for x in a):
+            continue
+        got = repr(probe.call(fn, *[(x[:1] + x[1:]) if type(x) is str and len(x) > 1 else x for x in a], **_copy(k)))
+        nt += 1
+        ctx.ev()
+        if got != want:
+            ctx.violation("result-depends-on-call-history:" + _name(fn).split(".")[-1], function=_name(fn), args=repr(a)[:300],
+                          first_result=want[:300], replayed_result=got[:300], note="arguments passed as short-lived temporaries",
+                          monitor="replay", case=None)
+    ctx.hit("replay_temporary_arguments", nt)
     # phase 1b: the same calls, each preceded by one of the library's general helpers on the same message string (frame
     # screening with crc(), icao(), df(), ... before decoding is what every application does)
     try:
